@@ -500,7 +500,16 @@ func TestC07_ParserAcceptsExactly(t *testing.T) {
 				t.Fatalf("harness: lengthened hash not longer than the limit")
 			}
 		}
-		if got, perr := newStack(q).Parser.Parse(ns, raw); perr == nil {
+		judge := newStack(q)
+		if rapid.Bool().Draw(t, "parserInUse") {
+			// the verdict on a request does not depend on what the parser has seen before: the untouched request (and, for good
+			// measure, its batch-mode parse) goes through the same parser first, a few times
+			for i, n := 0, rapid.IntRange(1, 4).Draw(t, "requestsBefore"); i < n; i++ {
+				_, _ = judge.Parser.Parse(ns, input)
+				_, _ = judge.Parser.ParseOperation(ns, input, true)
+			}
+		}
+		if got, perr := judge.Parser.Parse(ns, raw); perr == nil {
 			t.Fatalf("C07 %s request violating %q (%s) accepted as %s\n cfg=%+v\n req=%s", typ, label, detail, got.ID, q, raw)
 		}
 		st.Case(true, typ+"|"+label+"|"+detail+"|"+string(raw)+fmt.Sprint(q.MaxOperationSize, q.MaxDeltaSize, q.MultihashAlgorithms), "cell-"+typ+"/"+label, "violation-"+label)
